@@ -187,7 +187,9 @@ def gen_children_cm(ch, names, depth):
 # ------------------------------------------------------------------------------------------------------------------
 # DTD
 # ------------------------------------------------------------------------------------------------------------------
-EXTERNAL_LOCS = {'ext', 'xinc', 'xpe', 'epe'}        # external markup declarations in the sense of XML 1.0 section 2.9
+# External markup declarations in the sense of XML 1.0 section 2.9: "a markup declaration occurring in the external subset or in a
+# parameter entity (external or internal, the latter being included because non-validating processors are not required to read them)".
+EXTERNAL_LOCS = {'ext', 'xinc', 'xpe', 'epe', 'ipe'}
 ALL_LOCS = ['int', 'ext', 'ipe', 'epe', 'xinc', 'xpe']
 
 class DTD:
@@ -283,6 +285,7 @@ WISHES = {
     'missing-required': {'att': (ATT_TYPES, ['#REQUIRED'])},
     'wrong-fixed': {'att': ([t for t in ATT_TYPES if t != 'ID'], ['#FIXED'])},
     'enum-outside': {'att': (['ENUM'], DEFAULT_KINDS)},
+    'enum-multi': {'att': (['ENUM', 'NOTATION'], ['#IMPLIED', '#REQUIRED', 'DEFAULT'])},
     'notation-value': {'att': (['NOTATION'], DEFAULT_KINDS)},
     'bad-nmtoken': {'att': (['NMTOKEN', 'NMTOKENS'], ['#IMPLIED', '#REQUIRED', 'DEFAULT'])},
     'bad-name': {'att': (sorted(NAME_TYPES), ['#IMPLIED', '#REQUIRED', 'DEFAULT'])},
@@ -627,6 +630,42 @@ def violations(dtd, doc):
             if a['type'] == 'NOTATION' and any(t not in declared_not for t in a['enum']): V.add('notation-undeclared')
     return V
 
+def sa_norm_undetected(dtd, doc):
+    """known finding C07-sa-attnorm-trailing-inner: True if the document violates the standalone normalisation rule only through
+    forms Xerces does not look for (it checks leading white space, and a tab/CR/LF directly followed by white space)"""
+    hit = {'det': False, 'undet': False}
+    def walk(n):
+        if n[0] == 'e':
+            for an, raw in n[2]:
+                a = dtd.attdecl(n[1], an) if n[1] in dtd.elements else None
+                if a and a['type'] in TOKENISED and a['loc'] in EXTERNAL_LOCS and norm_tok(raw) != norm_cdata(raw):
+                    if raw[:1] in ' \t\n\r' or re.search('[\t\n\r][ \t\n\r]', raw): hit['det'] = True
+                    else: hit['undet'] = True
+            for c in n[3]: walk(c)
+    walk(doc['root'])
+    return hit['undet'] and not hit['det']
+
+def enum_multi_only(dtd, doc):
+    """known finding C07-enum-multiple-tokens-accepted: True if every enumeration violation of the document is a value made of several
+    *listed* tokens (Xerces checks such a value token by token and accepts it)"""
+    hit = {'multi': False, 'other': False}
+    def visit(a, value):
+        if a['type'] in ('ENUM', 'NOTATION') and value not in a['enum']:
+            toks = value.split(' ')
+            if len(toks) > 1 and all(t in a['enum'] for t in toks): hit['multi'] = True
+            else: hit['other'] = True
+    def walk(n):
+        if n[0] == 'e':
+            wr = dict(n[2])
+            for a in dtd.attlists.get(n[1], []) if n[1] in dtd.elements else []:
+                if a['name'] in wr: visit(a, norm_tok(wr[a['name']]))
+                elif a['dflt'] is not None: visit(a, norm_tok(a['dflt']))
+            for c in n[3]: walk(c)
+        elif n[0] == 'er':
+            for c in dtd.entities[n[1]]['nodes']: walk(c)
+    walk(doc['root'])
+    return hit['multi'] and not hit['other']
+
 def sa_ambiguous(dtd, doc):
     """standalone='yes' situations on which the editions / WFC-vs-VC reading differ: not generated"""
     amb = [False]
@@ -761,7 +800,7 @@ def copy_dtd(d):
     import copy
     return copy.deepcopy(d)
 
-MUTATIONS = ['wrong-root', 'missing-required', 'wrong-fixed', 'enum-outside', 'bad-nmtoken', 'bad-name', 'empty-value', 'multi-token',
+MUTATIONS = ['wrong-root', 'missing-required', 'wrong-fixed', 'enum-outside', 'enum-multi', 'bad-nmtoken', 'bad-name', 'empty-value', 'multi-token',
              'dup-id', 'dangling-idref', 'entity-parsed', 'entity-undeclared', 'notation-value', 'notation-undeclared',
              'undeclared-elem', 'undeclared-child', 'undeclared-attr', 'text-in-elemcontent', 'cdata-in-elemcontent', 'charref-in-elemcontent',
              'empty-ws', 'empty-text', 'empty-child', 'empty-comment', 'empty-pi', 'cm-delete', 'cm-insert', 'cm-swap', 'cm-dup', 'mixed-foreign',
@@ -821,6 +860,12 @@ def mutate(ch, dtd, doc, kind):
         v = ch.pick(a['enum']) + ch.pick(['x', '.', '0'])
         if v in a['enum']: return None
         return dtd, set_attr(p, a, v), 'bad-enum'
+    if kind == 'enum-multi':
+        pred = lambda a: a['type'] in ('ENUM', 'NOTATION') and a['kind'] != '#FIXED'
+        s = attr_sites(pred, True) + attr_sites(lambda a: pred(a) and a['kind'] == '#IMPLIED', False)
+        if not s: return None
+        p, n, a = ch.pick(s)
+        return dtd, set_attr(p, a, ch.pick(a['enum']) + ' ' + ch.pick(a['enum'])), 'bad-enum'
     if kind == 'notation-value':
         s = attr_sites(lambda a: a['type'] == 'NOTATION', True) + attr_sites(lambda a: a['type'] == 'NOTATION' and a['kind'] == '#IMPLIED', False)
         if not s: return None
@@ -1009,9 +1054,10 @@ def exhaustive_doc(cm, alphabet, L, leaf_models, ch=None, loc='int'):
     k = 0
     for seq in all_sequences(alphabet, L):
         line += 1; k += 1
-        body = ''.join(('<%s/>' % n) if (k + i) % 3 else ('<%s></%s>' % (n, n)) for i, n in enumerate(seq))
+        sep = ' ' if (cm[0] == 'CH' and k % 5 == 0) else ('<!--c-->' if k % 7 == 0 else '')
+        body = sep.join(('<%s/>' % n) if (k + i) % 3 else ('<%s></%s>' % (n, n)) for i, n in enumerate(seq))
         if cm[0] == 'MIXED' and k % 4 == 0: body = 'x' + body + ('y' if seq else '')
-        if cm[0] == 'CH' and k % 5 == 0 and seq: body = body.replace('><', '> <', 1) + ' '
+        if cm[0] == 'CH' and k % 5 == 0 and seq: body = body + ' '
         lines.append('<E>%s</E>' % body if (seq or k % 2) else '<E/>')
         ok, agree = m.accepts(seq)
         rows.append((line, seq, ok, agree))
